@@ -35,7 +35,10 @@ class TocRenderer:
             "<b>%d</b>" % 9999, pdfstyles.text_style(mode="toc_article",
                                                      text_align="right")
         )
-        width, _ = paragraph.wrap(0, pdfstyles.PRINT_HEIGHT)
+        # wrap() reports the width it was given, not the natural one (0 with
+        # current reportlab versions, which left no room for the page numbers)
+        paragraph.wrap(pdfstyles.PRINT_WIDTH, pdfstyles.PRINT_HEIGHT)
+        width = paragraph.minWidth()
         # subtracting 30pt below is *probably* necessary b/c
         # of the table margins
         return [pdfstyles.PRINT_WIDTH - width - 30, width]
